@@ -31,8 +31,8 @@ fn base_weights(chain: bool) -> OpWeights {
 		async_toggle: 1,
 		complete: 4,
 		pump: 7,
-		force_close: if chain { 2 } else { 0 },
-		mine: if chain { 3 } else { 0 },
+		force_close: if chain { 1 } else { 0 },
+		mine: if chain { 2 } else { 0 },
 		..OpWeights::zero()
 	}
 }
@@ -50,8 +50,9 @@ fn weights(chain: bool, restart: bool) -> XWeights {
 		async_s: 3,
 		interrupt: 5,
 		snapshot: if restart { 5 } else { 0 },
-		restart: if restart { 4 } else { 0 },
-		mine_many: if chain { 2 } else { 0 },
+		restart: if restart { 3 } else { 0 },
+		resolve_cut: 7,
+		mine_many: if chain { 1 } else { 0 },
 	}
 }
 
@@ -130,7 +131,7 @@ fn run(c: &Case, ctx: &mut Ctx, sim: &mut Sim, st: &mut C03, tags: &mut Vec<&'st
 	for l in s.labels.iter() {
 		ctx.label(l);
 	}
-	for t in ["send-route", "send-underpaid", "send-mpp", "send-router", "send-keysend", "dup-refused", "abandon", "interrupt", "restart", "force-close", "mine-many", "async-on"] {
+	for t in ["send-route", "send-underpaid", "send-mpp", "send-router", "send-keysend", "dup-refused", "abandon", "interrupt", "resolve-cut", "restart", "force-close", "mine-many", "async-on"] {
 		ctx.label_if(tags.contains(&t), &format!("op:{}", t));
 	}
 	ctx.label_if(s.sent > 0, "payment-sent");
